@@ -8,6 +8,6 @@ def both(ctx):
     run_session_correspondence(ctx)
 LABELS = {"C03", "PANIC"}
 def run(ctx):
-    generic_run(ctx, LABELS, extra=both, plan=[("c01", lambda: F.fam_c01(ctx.rng, sizes(ctx, 300, 3000), tag="c03")), ("death2", lambda: F.fam_death(ctx.rng, sizes(ctx, 80, 600)))])
+    generic_run(ctx, LABELS, extra=both, plan=[("c01", lambda: F.fam_c01(ctx.rng, sizes(ctx, 300, 3000), tag="c03")), ("death2", lambda: F.fam_death(ctx.rng, sizes(ctx, 80, 600))), ("disc_live", lambda: F.fam_disc_live(ctx.rng, sizes(ctx, 60, 600)))])
 def replay(ctx, path):
     return sim_replay(ctx, path, LABELS)
